@@ -185,7 +185,7 @@ func (c06) once(c *Ctx, i int, rep int) CaseResult {
 		in.ListLen = []int{0, 1, 2, 9, 10, 11, 12, 25, 60, 150, 300}[r.Intn(11)]
 		nf := []int{0, 1, 5, 10, 11, 12, 30, 100, 300}[r.Intn(9)]
 		if nf > 0 {
-			kind := []string{"transport", "gqlerrors"}[r.Intn(2)]
+			kind := []string{"transport", "gqlerrors", "empty-errors"}[r.Intn(3)]
 			svc := in.Spec.Order[r.Intn(len(in.Spec.Order))]
 			in.Faults = []FaultSpec{{Service: svc, From: r.Intn(2), Count: nf, Kind: kind}}
 			if r.Intn(2) == 0 {
